@@ -80,6 +80,8 @@ contract("monkeytype.tracing:CallTracer.handle_return", props=["C02", "C18", "C0
          modifies=["traces", "return_type", "yield_type"], effects="log",
          params={"self": "Tracer", "frame": "Frame", "arg": "Val"}, result="none",
          requires=_RET_REQ, ensures=_RET_POSTS,
+         # C18 / C03: the return value of a call that is not being traced (unsampled, filtered at its start) is never inspected
+         call_guards={"get_type": {"only-traced-calls": "has(old(self.traces), frame)"}},
          ensures_exc={"exc:contained-state": "self.traces is old(self.traces) or self.traces is dict_del_(old(self.traces), frame)",
                       # C02 "afterwards the tracer keeps no per-call state", also when the logger fails on the finished call
                       "exc:finished-dropped": "implies(log_attempted(), self.traces is dict_del_(old(self.traces), frame))",
